@@ -1989,6 +1989,12 @@ def run(tier):
               'protocol methods store nothing on the object, the class or '
               'module-level containers except option values and constants',
               'proposals refer to nodes, sorts or symbols of another input or another node')
+    from .. import probes
+    chk.guard(probes.report_lexemes, chk, prog, 'C15.R14',
+              'the lexeme-class predicates (is_string_const, '
+              'is_piped_symbol, is_bv_const, is_int_const, is_real_const), '
+              'folded on well-formed leaves, classify them as SMT-LIB does',
+              'a quoted symbol or string literal that is not recognised is cut, prefixed or re-quoted as if it were a simple symbol: the proposal contains leaves that are not single tokens')
     extra = None
     if tier == 'thorough':
         from .. import selftest
